@@ -108,6 +108,30 @@ EXTRA = {
  "C19": "Plus backend lists ending with a static entry of the other transport, suffix/prefix-related addresses, a transaction in flight across the last step, and one host name under both transports (tracked finding). Round 7: rotation membership also by multiplicity; one host name feeding the rotations of two listens entries (found the resolver defect fixed in 828009b) and a second entry that cannot bind; the same-name search continues past its tracked violations.",
  "C20": "Plus partial-write faults, encoded lengths around 64 KiB, and a configured backend-local-port with a bind-conflict model.",
 }
+# round 8 (two cooperating sites; interleaving / fault / time at a particular point)
+FLOWS8 = " Round 8: every call flow again with one behaviour-neutral environment event (clock steps, dropped traffic, TCP visitors, keep-alives, resolver rounds) before each of its injections, and the concurrent flow pass: two flows at once through one proxy (other transport / second listens entry / TCP connection opened with the first message), every schedule with at most one deviation, same per-flow oracles."
+ROUND8 = {
+ "C01": "Content-Length written with blanks before the colon." + FLOWS8,
+ "C02": "A sent-by host name that only the DNS knows." + FLOWS8,
+ "C03": "A literal static-route entry written with capitals." + FLOWS8,
+ "C04": "The subscriber's first NOTIFY overtaking its 200." + FLOWS8,
+ "C05": FLOWS8.strip(),
+ "C06": "Connection churn on a TCP listener with TCP backends (32 variants): later requests are stamped like the first." + FLOWS8,
+ "C07": FLOWS8.strip(),
+ "C09": "Round 8: scenario clients-hang-up (a client and a dialled TCP backend hang up while loops handle what their connections carried) and the concurrent flow pass (two call flows at once, 23 pairs x 6 variants, thorough 144 pairs) under the race detector.",
+ "C10": FLOWS8.strip(),
+ "C11": "Round 8: the sender stalls for two hours of virtual time at a cut (direct and end to end), with read deadlines modelled on the virtual clock.",
+ "C12": "Senders that pre-fill rport with a value." + FLOWS8,
+ "C13": "Round 8: a listens entry with backend-local-address; a first Route entry whose DNS-only host name moves between the listener, another host and nothing (27 histories x 3 gaps, differential against a proxy started in that state).",
+ "C14": "Round 8: sip / sips schemes written with capitals.",
+ "C15": "The answer to a BYE that cannot be delivered (TCP caller gone) still dissolves the pin." + FLOWS8,
+ "C16": "Round 8: upper-case compact names in the quick tier; environment events between flow steps (the concurrent pass is left to C04 / C15, same oracle).",
+ "C18": "Round 8: end-to-end tables preceded by an entry whose next hop does not parse; a literal with capitals.",
+ "C19": "Round 8: schedule search (<=3, thorough <=4 deviations) over a second registration for the name at the moment a changed answer is due.",
+ "C20": "Round 8: write faults on the UDP path (datagram too long once the Via is added), then ordinary traffic.",
+}
+for _id, _x in ROUND8.items():
+    EXTRA[_id] += " " + _x
 # state keys and white-box clauses read private state through harness/zz_priv.go (by name, then by shape, at run time)
 for _id in ("C02", "C04", "C05", "C12", "C15", "C19"):
     EXTRA[_id] += " Private state is read reflectively (by name, then by shape): a restructured table does not stop the check from building."
